@@ -321,27 +321,51 @@ impl<T: Ty, L: LinkType> Mut for Gold<T, L> {
 }
 
 // ---------------------------------------------------------------------------------------------
-pub struct Idx<T: Ty>(pub GoldHashIdx<T::K, T::V>, pub u64);
+/// .2 = a twin map fed by the same memory pool (the same Arc for with_pool, the same global pool otherwise) that receives
+/// every change with the value + 1: two maps that share a pool must not see each other's values.  A lookup whose twin
+/// answer is not "the same + 1" is reported as the value TWIN_DISAGREES.
+pub struct Idx<T: Ty>(pub GoldHashIdx<T::K, T::V>, pub u64, pub Option<GoldHashIdx<T::K, T::V>>);
+pub const TWIN_DISAGREES: u64 = u64::MAX - 10;
+impl<T: Ty> Idx<T> {
+    fn twin_ok(&self, k: u64, a: Option<u64>) -> bool {
+        match &self.2 { None => true, Some(t) => t.get(&T::k(self.1, k)).map(T::vb) == a.map(|x| x.wrapping_add(1)) }
+    }
+}
 impl<T: Ty> Mut for Idx<T> {
     fn canon_k(&self, k: u64) -> u64 { T::kb(&T::k(self.1, k)) }
     fn canon_v(&self, v: u64) -> u64 { T::vb(&T::v(v)) }
-    fn insert(&mut self, k: u64, v: u64) -> Option<R<Option<u64>>> { Some(self.0.insert(T::k(self.1, k), T::v(v)).map(|o| o.map(|x| T::vb(&x))).map_err(estr)) }
-    fn remove(&mut self, k: u64) -> Option<R<Option<u64>>> { Some(Ok(self.0.remove(&T::k(self.1, k)).map(|x| T::vb(&x)))) }
-    fn get(&mut self, k: u64) -> Option<Option<u64>> { Some(self.0.get(&T::k(self.1, k)).map(T::vb)) }
-    fn get_mut_set(&mut self, k: u64, v: u64) -> Option<Option<u64>> { Some(self.0.get_mut(&T::k(self.1, k)).map(|r| T::vb(&std::mem::replace(r, T::v(v))))) }
+    fn insert(&mut self, k: u64, v: u64) -> Option<R<Option<u64>>> {
+        if let Some(t) = &mut self.2 { let _ = t.insert(T::k(self.1, k), T::v(v.wrapping_add(1))); }
+        Some(self.0.insert(T::k(self.1, k), T::v(v)).map(|o| o.map(|x| T::vb(&x))).map_err(estr))
+    }
+    fn remove(&mut self, k: u64) -> Option<R<Option<u64>>> {
+        if let Some(t) = &mut self.2 { let _ = t.remove(&T::k(self.1, k)); }
+        Some(Ok(self.0.remove(&T::k(self.1, k)).map(|x| T::vb(&x))))
+    }
+    fn get(&mut self, k: u64) -> Option<Option<u64>> {
+        let a = self.0.get(&T::k(self.1, k)).map(T::vb);
+        Some(if self.twin_ok(k, a) { a } else { Some(TWIN_DISAGREES) })
+    }
+    fn get_mut_set(&mut self, k: u64, v: u64) -> Option<Option<u64>> {
+        if let Some(t) = &mut self.2 { if let Some(r) = t.get_mut(&T::k(self.1, k)) { *r = T::v(v.wrapping_add(1)); } }
+        Some(self.0.get_mut(&T::k(self.1, k)).map(|r| T::vb(&std::mem::replace(r, T::v(v)))))
+    }
     fn contains(&mut self, k: u64) -> Option<bool> { Some(self.0.contains_key(&T::k(self.1, k))) }
     fn len(&mut self) -> Option<usize> {
         let n = self.0.len();
         if self.0.is_empty() != (n == 0) { return Some(usize::MAX); }
+        if let Some(t) = &self.2 { if t.len() != n { return Some(usize::MAX - 1); } }
         Some(n)
     }
     fn iter(&mut self) -> Option<Vec<(u64, u64)>> { None }
     fn clear(&mut self) -> Option<()> { None }
     fn maintain(&mut self, w: u64) -> Option<()> {
         match w % 4 { 0 | 1 => self.0.shrink_to_fit(), 2 => { let _ = self.0.memory_usage(); } _ => { let _ = format!("{:?}", self.0); } }
+        if let Some(t) = &mut self.2 { if w % 4 == 1 { t.shrink_to_fit(); } }
         Some(())
     }
     fn bulk(&mut self, items: &[(u64, u64)], _w: u64) -> Option<R<()>> {
+        if let Some(t) = &mut self.2 { let _ = t.insert_batch(items.iter().map(|(k, v)| (T::k(self.1, *k), T::v(v.wrapping_add(1)))).collect()); }
         Some(self.0.insert_batch(items.iter().map(|(k, v)| (T::k(self.1, *k), T::v(*v))).collect()).map_err(estr))
     }
     fn alt_get(&mut self, keys: &[u64], _w: u64) -> Option<Vec<(u64, Option<u64>, Option<u64>)>> {
@@ -555,7 +579,7 @@ fn typed<T: Ty>(family: &str, tname: &str, aux: u64) -> (String, Box<dyn Mut>) {
             c.initial_capacity = 5;
             (format!("GoldHashMap<{}>", tname), Box::new(Gold::<T, u32>(GoldHashMap::with_config(c), aux, false)))
         }
-        "idx_t" => (format!("GoldHashIdx<{}>", tname), Box::new(Idx::<T>(GoldHashIdx::new(), aux))),
+        "idx_t" => (format!("GoldHashIdx<{}>", tname), Box::new(Idx::<T>(GoldHashIdx::new(), aux, None))),
         "small_t" => (format!("SmallMap<{}>", tname), Box::new(Sm::<T>(SmallMap::new(), aux))),
         _ => (format!("EasyHashMap<{}>", tname), Box::new(Easy::<T>(EasyHashMap::with_default(T::v(7)), aux, Some(7), false))),
     }
